@@ -907,13 +907,8 @@ impl Sut for S {
                 self.exec_raw(by, &minter, json!({"set_whitelist": {"whitelist": wl}}).to_string(), &paid).is_ok()
             }
             "ust" => self.exec_raw(by, &minter, json!({"update_start_time": kv_u64(line, "t").unwrap().to_string()}).to_string(), &paid).is_ok(),
-            "uet" => {
-                tag = Some("env");
-                let r = self.exec_raw(by, &minter, json!({"update_end_time": kv_u64(line, "t").unwrap().to_string()}).to_string(), &paid).is_ok();
-                let stop = self.obs().m.and_then(|m| m.stop);
-                model_line = format!("setstop e={}", fmt_opt(&stop));
-                r
-            }
+            // open edition `UpdateEndTime`: `PriceRules.updateEnd` decides it (the end time gates UpdateMintPrice and Mint)
+            "uet" => self.exec_raw(by, &minter, json!({"update_end_time": kv_u64(line, "t").unwrap().to_string()}).to_string(), &paid).is_ok(),
             "sudomin" => {
                 let c = (kv_u64(line, "d").unwrap(), kv_u128(line, "a").unwrap());
                 self.w.sudo(&self.factory.clone(), &json!({"update_params": {"min_mint_price": jcoin(c), "extension": {}}})).is_ok()
@@ -1042,7 +1037,7 @@ impl S {
         }
         let started = self.ever_started.is_some();
         let (pub0, disc0, wl0) = (self.g_pub, self.g_disc, self.g_wl);
-        let in_projection = matches!(op, "create" | "ump" | "udp" | "rdp" | "swl" | "ust" | "sudomin" | "facmig" | "mint");
+        let in_projection = matches!(op, "create" | "ump" | "udp" | "rdp" | "swl" | "ust" | "uet" | "sudomin" | "facmig" | "mint");
 
         // ---------------------------------------------------------------- 1. what an ACCEPTED operation did, against the clauses
         if ok {
@@ -1363,6 +1358,24 @@ fn boundary_cases(ses: &mut Session, sut: &mut S, optin: &str) {
         let o = step(ses, sut, &format!("create by=10 d=0 p=5000 s={s} e={es} cap=1 wl=-"));
         mark(ses, "create:floor", &o);
         step(ses, sut, "probe");
+        if oe {
+            // UpdateEndTime: admin only, nonpayable, not before the start, not in the past; vending has no such message
+            let o = step(ses, sut, &format!("uet by=11 paid=0 t={}", e + HOUR));
+            mark(ses, "uet:stranger", &o);
+            let o = step(ses, sut, &format!("uet by=10 paid=1 t={}", e + HOUR));
+            mark(ses, "uet:paid", &o);
+            let o = step(ses, sut, &format!("uet by=10 paid=0 t={}", s - 1));
+            mark(ses, "uet:start-1", &o);
+            let o = step(ses, sut, &format!("uet by=10 paid=0 t={}", t0 - 1));
+            mark(ses, "uet:past", &o);
+            let o = step(ses, sut, &format!("uet by=10 paid=0 t={s}"));
+            mark(ses, "uet:start", &o);
+            let o = step(ses, sut, &format!("uet by=10 paid=0 t={e}"));
+            mark(ses, "uet:back", &o);
+        } else {
+            let o = step(ses, sut, &format!("uet by=10 paid=0 t={}", e + HOUR));
+            mark(ses, "uet:vending", &o);
+        }
         let o = step(ses, sut, "swl by=10 paid=0 k=0");
         mark(ses, "swl:floor-1", &o);
         let o = step(ses, sut, "swl by=10 paid=0 k=2");
@@ -1428,6 +1441,8 @@ fn boundary_cases(ses: &mut Session, sut: &mut S, optin: &str) {
             let o = step(ses, sut, "ump by=10 paid=0 p=80000");
             mark(ses, "ump:end:lower", &o);
             step(ses, sut, "probe");
+            let o = step(ses, sut, &format!("uet by=10 paid=0 t={}", e + HOUR));
+            mark(ses, "uet:end-passed", &o);
         }
         step(ses, sut, "surface");
         ses.end_case();
@@ -1570,9 +1585,12 @@ fn main() {
         if oe {
             ses.require(format!("bnd:{k}:ump:end-1:lower:ok"));
             ses.require(format!("bnd:{k}:ump:end:lower:err"));
+            for c in ["uet:stranger:err", "uet:paid:err", "uet:start-1:err", "uet:past:err", "uet:start:ok", "uet:back:ok", "uet:end-passed:err"] {
+                ses.require(format!("bnd:{k}:{c}"));
+            }
         } else {
             for c in [
-                "udp:start-1:err", "udp:stranger:err", "udp:start:ok", "ump:below-discount:ok", "probe:after-cut:cur=0:500,lo=0,eq=1", "mint:old-discount:err", "mint:new-public:ok",
+                "uet:vending:err", "udp:start-1:err", "udp:stranger:err", "udp:start:ok", "ump:below-discount:ok", "probe:after-cut:cur=0:500,lo=0,eq=1", "mint:old-discount:err", "mint:new-public:ok",
                 "rdp:last1h-1:err", "rdp:last1h:ok", "udp:last12h-1:err", "udp:pub+1:err", "udp:floor-1:err", "udp:last12h:ok", "mint:discount=public:ok",
                 "ump:after:equal:err", "ump:after:lower:ok", "migrate:pre390:ok", "udp:after-reanchor:ok", "rdp:after-udp1h:ok",
             ] {
